@@ -33,18 +33,20 @@ type vfC13WStep struct {
 
 type vfC13WCase struct {
 	Fault map[string]string // server address -> silent / refused / servfail
+	Slow  map[string]time.Duration
 	Steps []vfC13WStep
 	W     *vfworld.World
 	QMin  int
 }
 
 func vfC13WGen(rt *rapid.T) *vfC13WCase {
-	c := &vfC13WCase{Fault: map[string]string{}, QMin: rapid.SampledFrom([]int{0, 0, 5}).Draw(rt, "qmin")}
+	c := &vfC13WCase{Fault: map[string]string{}, Slow: map[string]time.Duration{}, QMin: rapid.SampledFrom([]int{0, 0, 5}).Draw(rt, "qmin")}
 	c.W = vfworld.Build([]vfworld.ZoneSpec{
 		{Apex: ".", Signed: true}, {Apex: "test.", Signed: true},
 		{Apex: "dead.test.", Servers: 2, Owners: map[string][]uint16{"a.dead.test.": {dns.TypeA}, "b.dead.test.": {dns.TypeA}}},
 		{Apex: "half.test.", Servers: 2, Owners: map[string][]uint16{"a.half.test.": {dns.TypeA}, "b.half.test.": {dns.TypeA}}},
 		{Apex: "fine.test.", Servers: 2, Owners: map[string][]uint16{"a.fine.test.": {dns.TypeA}, "b.fine.test.": {dns.TypeA}}},
+		{Apex: "many.test.", Servers: 5, Owners: map[string][]uint16{"a.many.test.": {dns.TypeA}, "b.many.test.": {dns.TypeA}}},
 	})
 	kind := func(l string) string {
 		return rapid.SampledFrom([]string{"silent", "silent", "refused", "servfail"}).Draw(rt, l)
@@ -53,7 +55,18 @@ func vfC13WGen(rt *rapid.T) *vfC13WCase {
 		c.Fault[ip] = kind("deadfault")
 	}
 	c.Fault[c.W.Zones["half.test."].Servers[rapid.IntRange(0, 1).Draw(rt, "halfwhich")]] = kind("halffault")
-	names := []string{"a.dead.test.", "b.dead.test.", "nx.dead.test.", "a.half.test.", "b.half.test.", "nx.half.test.", "a.fine.test.", "nx.fine.test.", "t.test.", "dead.test."}
+	// five servers, all but one or two failing (mostly with a failure rcode, which arrives at once), the healthy ones slow
+	many := c.W.Zones["many.test."].Servers
+	healthy := rapid.IntRange(0, len(many)-1).Draw(rt, "manyhealthy")
+	healthy2 := rapid.SampledFrom([]int{-1, -1, 0, 1, 2, 3, 4}).Draw(rt, "manyhealthy2")
+	for i, ip := range many {
+		if i == healthy || i == healthy2 {
+			c.Slow[ip] = time.Duration(rapid.SampledFrom([]int{0, 40, 150, 400}).Draw(rt, "manydelay")) * time.Millisecond
+			continue
+		}
+		c.Fault[ip] = rapid.SampledFrom([]string{"refused", "servfail", "servfail", "silent"}).Draw(rt, "manyfault")
+	}
+	names := []string{"a.dead.test.", "b.dead.test.", "nx.dead.test.", "a.half.test.", "b.half.test.", "nx.half.test.", "a.fine.test.", "nx.fine.test.", "t.test.", "dead.test.", "a.many.test.", "b.many.test.", "nx.many.test.", "a.many.test."}
 	n := rapid.IntRange(4, 14).Draw(rt, "nsteps")
 	healAt := rapid.IntRange(2, n).Draw(rt, "healat")
 	for i := 0; i < n; i++ {
@@ -91,6 +104,9 @@ func vfC13WRun(t *testing.T, dir string, c *vfC13WCase) (violation string, trace
 			if healed {
 				return vfworld.Action{}
 			}
+			if d, ok := c.Slow[p.Addr]; ok && d > 0 {
+				return vfworld.Action{Delay: d}
+			}
 			switch c.Fault[p.Addr] {
 			case "silent":
 				return vfworld.Action{Drop: true}
@@ -103,7 +119,7 @@ func vfC13WRun(t *testing.T, dir string, c *vfC13WCase) (violation string, trace
 		}
 		since := func() time.Duration { return time.Since(vfworld.Epoch) }
 		zoneOf := func(name string) string {
-			for _, z := range []string{"dead.test.", "half.test.", "fine.test."} {
+			for _, z := range []string{"dead.test.", "half.test.", "fine.test.", "many.test."} {
 				if strings.HasSuffix(strings.ToLower(name), z) {
 					return z
 				}
